@@ -6,9 +6,13 @@ NEEDS_KNUT = True
 RULE = ("generated accepted journals (accounts up to 5 levels deep, 1-4 commodities, accruals, negative/zero amounts) x 2 unvalued "
         "flag sets each: window/--last/6 intervals, --diff, --close, --account/--commodity filters, -m level[:suffix],regex with "
         "level 0..3 and suffix 0..2, --remap; `knut balance --csv -a`.  The spec verdict recomputes every CSV row from the flat list "
-        "of dated postings with Spec.LedgerSpec.ledger_csv (closed form, no processors/report tree/renderer) and demands equality "
-        "with the binary's CSV, row by row; the model's CSV must also be byte-identical.  Non-trivial: report produced and at least "
-        "one non-default flag among map/remap/filter/close/diff/last; distinct by input.")
+        "of dated postings with Spec.LedgerSpec.ledger_csv (closed form, no processors/report tree/renderer) and compares it with "
+        "the binary's CSV in three steps: the header; the SET of rows in both directions (a ledger row -- named by its full account "
+        "path from Spec.BalanceTableSpec.ledger_row_paths -- that the report does not have; a report row that no ledger row "
+        "explains), including the Total (A+L), Total (E+I+E) and Delta rows; then every commodity line and every cell of every row "
+        "(exact decimals).  The model's CSV must also be byte-identical.  input_distribution.checked counts the rows, lines and "
+        "cells compared this run.  Non-trivial: report produced and at least one non-default flag among "
+        "map/remap/filter/close/diff/last; distinct by input.")
 TRUSTED_BASE = [
     "Coq 8.16.1 kernel",
     "extraction (ExtrOcamlBasic only), OCaml 4.13.1, drv_journal.ml/drv_c02.ml",
@@ -19,19 +23,30 @@ TRUSTED_BASE = [
 ASSUMPTIONS = ["regular expressions restricted to ^literal$ forms", "--to always passed explicitly", "-a always passed (sibling order without -a is C06's concern)"]
 TECHNIQUE = ("Coq: closed-form ledger specification + refinement proof of the stateful pipeline model to it; spec evaluated on the "
              "binary's CSV and byte-exact model/implementation correspondence on generated journals")
-LEVEL_TEXT = ("Proved in Coq at full strength (Properties/C02.v): C02_cells -- every cell of the model's report equals the closed-form "
-              "ledger sum -- and C02_rows -- the report has a row exactly for the accounts the ledger computation lists (ledger_row) -- for "
-              "every journal, window, interval, --last, filter, mapping, remap, with and without --close.  With --close the stateful "
-              "CloseAccounts processor is thereby proved equal to Spec.LedgerSpec.closing_entries (at each period start the amounts the "
-              "non-A/L accounts accumulated since the previous period start move to Equity:Equity).  The --close case assumes the posting "
-              "accounts are ones the parser can produce (no colon or NUL byte inside a segment; C02_cells_unsyntactic_refuted shows the "
-              "model, not knut, needs it).  Not proved: the text of the CSV (order of the row blocks, commodity lines, totals, delta, "
-              "printed numbers) = ledger_csv; that is compared with the real binary's CSV and the model's CSV on every run, which is how "
-              "the Shorten aliasing defect (fixed in /repo 2f5b0b6) was found.")
+LEVEL_TEXT = ("Proved in Coq at full strength (Properties/C02.v), for every journal, window, interval, --last, filter, mapping, remap, "
+              "with and without --close.  Report TREE: C02_cells -- every cell of the model's report equals the closed-form ledger sum -- "
+              "and C02_rows -- the report has a node exactly for the accounts the ledger computation lists (ledger_row).  With --close the "
+              "stateful CloseAccounts processor is thereby proved equal to Spec.LedgerSpec.closing_entries.  TABLE that `balance` prints "
+              "(row list of Renderer.Render before text/CSV rendering): C02_table_layout -- separator, header, separator, per top-level "
+              "account the blocks of its sorted subtree and an empty line, Total (A+L), separator, the same for E/I/E, Delta, separator, "
+              "for every report and render configuration; C02_table_rows -- one block per account row, pairwise distinct, in the order "
+              "of the sorted trees, exactly for the accounts ledger_row lists; C02_table_cells -- the block of an account has one line "
+              "per commodity with a non-zero cell (ascending; name = last segment, indent 2 per level) and the cell of column j is a "
+              "decimal of the value sign * ledger period amount, accumulated over columns 0..j unless --diff (exact, before rounding: "
+              "C17); C02_table_cells_render -- the same for the renderer alone, valued or not, with --show-commodities (per commodity) "
+              "or without (the sum over commodities).  Hypothesis of the --close cases and of C02_table_cells: the posting accounts are "
+              "ones the parser can produce (postings_syntactic; C02_cells_unsyntactic_refuted shows the model, not knut, needs it).  "
+              "C02_table_totals -- the numbers of the Total (A+L) / Total (E+I+E) / Delta lines are the ledger amounts over all A/L "
+              "accounts / all others (negated) / all accounts.  "
+              "Not proved: which commodity lines the three total rows list (their numbers and place are proved; Delta = 0 is C01), that "
+              "no amount is stored under the zero date (the criterion for listing a commodity line of an account is stated on the report "
+              "tree, its ledger direction is proved), and the text of the CSV (printed numbers) = ledger_csv; these are compared with the real binary's CSV and the "
+              "model's CSV on every run, which is how the Shorten aliasing defect (fixed in /repo 2f5b0b6) was found.")
 LEVEL_NOTE = ("Trusted: kernel, extraction, harness, the hand-written model (sampled tie to the code). Parser not in the loop (C07). "
-              "Cells are compared as rational values (decimal addition is exact); their printed form is part of the byte comparison only. "
-              "Rows are the nodes of the report trees; that the renderer emits every node is part of the byte comparison only.")
-
+              "Cells are compared as rational values (decimal addition is exact); the table-level theorems give the decimal in the "
+              "table cell up to cmp = 0, its printed form is part of the byte comparison (and of C17). "
+              "The row set of the binary's CSV is checked against the ledger in both directions on every run, rows named by full path; "
+              "rows carry only their last segment in the CSV, so a row is identified by its position in depth-first order and its name.")
 
 def plan(tier, seed):
     if tier == "quick":
@@ -53,6 +68,10 @@ def nontrivial(c):
 
 def distribution(cases):
     d = {"ok": 0, "err": 0, "close": 0, "diff": 0, "last": 0, "mapped": 0, "suffix": 0, "level0": 0, "remap": 0, "acc_filter": 0, "com_filter": 0}
+    # what the spec verdict compared with the ledger computation (cases whose verdict is ok: every row, line and cell below was
+    # found equal; the row set was compared in both directions)
+    chk = {"reports": 0, "account_rows": 0, "total_and_delta_rows": 0, "lines": 0, "cells": 0, "nonblank_cells": 0,
+           "max_rows_in_a_report": 0, "reports_without_account_rows": 0}
     for c in cases:
         d["ok" if c.observed.startswith("OK") else "err"] += 1
         cfg = dict(kv.split("=", 1) for kv in c.input.split(" | ")[0].split())
@@ -65,4 +84,20 @@ def distribution(cases):
         d["remap"] += cfg["remap"] != "-"
         d["acc_filter"] += cfg["acc"] != "-"
         d["com_filter"] += cfg["com"] != "-"
+        if c.observed.startswith("OK ") and c.spec == "ok":
+            lines = [l.split(",") for l in c.observed[3:].split("\\n") if l]
+            chk["reports"] += 1
+            rows = 0
+            for l in lines[1:]:
+                chk["lines"] += 1
+                if l[0] in ("Total (A+L)", "Total (E+I+E)", "Delta"):
+                    chk["total_and_delta_rows"] += 1
+                elif l[0] != "":
+                    rows += 1
+                chk["cells"] += max(len(l) - 2, 0)
+                chk["nonblank_cells"] += sum(1 for x in l[2:] if x != "")
+            chk["account_rows"] += rows
+            chk["max_rows_in_a_report"] = max(chk["max_rows_in_a_report"], rows)
+            chk["reports_without_account_rows"] += rows == 0
+    d["checked"] = chk
     return d
